@@ -126,11 +126,13 @@ Record quirks := {
   q_compress_keeps_length : bool;     (* compression.compress leaves http.Response.ContentLength *)
   q_adaptor_body_keeps_length : bool; (* ResponseAdaptor body keeps the old Content-Length header *)
   q_proxy_decoded_path : bool;        (* prepareRequest re-parses the decoded path *)
-  q_stream_compress_panics : bool     (* collectMetrics: nil CallbackReader when a streamed body was wrapped by the gzip reader *)
+  q_stream_compress_panics : bool;    (* collectMetrics: nil CallbackReader when a streamed body was wrapped by the gzip reader *)
+  q_compress_replaces_label : bool    (* compress: Header.Set(Content-Encoding, gzip) drops the codings the body already had *)
 }.
 Definition ideal : quirks :=
   {| q_compress_keeps_length := false; q_adaptor_body_keeps_length := false;
-     q_proxy_decoded_path := false; q_stream_compress_panics := false |}.
+     q_proxy_decoded_path := false; q_stream_compress_panics := false;
+     q_compress_replaces_label := false |}.
 
 Record fns := {
   f_gzip : string -> string;
@@ -189,6 +191,11 @@ Inductive outcome :=
 | NoResponse (b : option breq).                (* handler panicked: connection closed without a response *)
 
 Definition CE := "Content-Encoding".
+
+(** label a body that has just been gzip-compressed: the coding is appended to those the
+    body already carries (the unchanged code replaces them) *)
+Definition label_gzip (q : quirks) (h : headers) : headers :=
+  if q_compress_replaces_label q then h_set CE "gzip" h else h_add CE "gzip" h.
 
 (** ** request half *)
 Definition request_adaptor (f : fns) (a : adapt) (h : headers) (body : string) : option (headers * string) :=
@@ -266,7 +273,7 @@ Definition compress (q : quirks) (f : fns) (minlen : Z) (req_headers : headers) 
   else if already_gzipped (rs_headers r) then (r, false)
   else if negb (rs_decl r =? -1) && (rs_decl r <? minlen) then (r, false)
   else ({| rs_status := rs_status r;
-           rs_headers := h_add "Vary" CE (h_set CE "gzip" (rs_headers r));
+           rs_headers := h_add "Vary" CE (label_gzip q (rs_headers r));
            rs_cl := None;
            rs_decl := if q_compress_keeps_length q then rs_decl r else -1;
            rs_body := f_gzip f (rs_body r); rs_stream := false |}, true).
@@ -300,7 +307,7 @@ Definition response_adaptor (q : quirks) (f : fns) (a : adapt) (r : resp) : resp
             else r in
   let r2 := if a_compress a && negb (already_gzipped (rs_headers r1))
             then let z := f_gzip f (rs_body r1) in
-                 set_body r1 (h_set CE "gzip" (rs_headers r1))
+                 set_body r1 (label_gzip q (rs_headers r1))
                           (if rs_stream r1 then None else Some (slen z)) z (rs_stream r1)
             else r1 in
   if a_decompress a && String.eqb (h_get CE (rs_headers r2)) "gzip" then
